@@ -44,6 +44,32 @@ def run(chk):
             body, frame = W.hexs(bytes(fr.hl_packet.data)), W.hexs(fr.serialize())
         except Exception as e:  # noqa
             body = frame = "EXC:%s:%s" % (type(e).__name__, str(e)[:80])
+        # the same assignment with the items of its integer lists given as integers of ANOTHER width (or plain ints): the
+        # pinned revision converts every list item to the field's item type, so the wire bytes are the pinned ones
+        if not body.startswith("EXC:") and body == v["body"]:
+            try:
+                kw2, changed = {}, False
+                for p in cls.schema:
+                    if p.name not in kw:
+                        continue
+                    val = kw[p.name]
+                    if W.classify(p.type)[0] in ("lvlist", "fixlist", "greedy") and len(val):
+                        new = W.foreign_items(chk.rng, p.type, list(val), always=True)
+                        changed = changed or any(type(a) is not type(b) for a, b in zip(new, val))
+                        val = p.type(new)
+                    kw2[p.name] = val
+                if changed:
+                    body2 = W.hexs(bytes(cls(**kw2).to_frame().hl_packet.data))
+                    chk.evaluations += 1
+                    chk.count("foreign_width_item_variants")
+                    if body2 != v["body"] and bad is None:
+                        bad = v
+                        drift.append((name, "list items given with another integer width encode to %s, pinned %s" % (body2[:80], v["body"][:80])))
+                        chk.violation("%s: with the items of its list parameters given as integers of another width, %s encodes "
+                                      "to %s; the pinned bytes (field widths of the protocol) are %s"
+                                      % (name, v["assignment"], body2, v["body"]), {"vector": v, "now": body2}, key="width-drift:" + name)
+            except Exception as e:  # noqa
+                drift.append((name, "foreign-width items refused: %s" % type(e).__name__))
         if body != v["body"] or frame != v["frame"]:
             drift.append((name, "assignment %s encodes to %s, pinned %s" % (v["assignment"], frame[:80], v["frame"][:80])))
             if bad is None:
@@ -68,9 +94,39 @@ def run(chk):
     # enum members: checked by the kernel (GenEnums = PinnedEnums); here: COMMANDS_BY_ID size and pairing on the impl
     n_by_id = len(c.COMMANDS_BY_ID)
     chk.oblige("COMMANDS_BY_ID has one entry per class (%d)" % n_by_id, n_by_id == len(table), "%d vs %d" % (n_by_id, len(table)))
-    if chk.broken and not chk.violations:
-        # proof broken (tables differ) but no vector differs: look for the differing table row
-        pass
+    # the enum / flag tables regenerated from the tree against the pinned ones, member by member (the kernel proves the
+    # equality of the whole tables; this names the member that differs - the concrete failing input when it does not)
+    import re
+    import common as _c
+
+    def enum_rows(path):
+        rows = {}
+        try:
+            txt = open(path).read()
+        except OSError:
+            return None
+        for name, width, members in re.findall(r'\("([^"]+)", (\d+), \[(.*?)\]\)', txt, flags=re.S):
+            rows[name] = (int(width), re.findall(r'\("([^"]+)", (\d+)\)', members))
+        return rows
+    gen = enum_rows(os.path.join(_c.COQ, "gen", "GenEnums.v"))
+    pin = enum_rows(os.path.join(_c.COQ, "pinned", "PinnedEnums.v"))
+    ebad = None
+    if gen is not None and pin is not None:
+        for name in sorted(set(gen) | set(pin)):
+            if name not in gen or name not in pin:
+                ebad = (name, "enumeration %s" % ("disappeared" if name in pin else "is new"), "", "")
+                break
+            if gen[name] != pin[name]:
+                g, p_ = dict(gen[name][1]), dict(pin[name][1])
+                diff = [(k, g.get(k), p_.get(k)) for k in list(p_) + [k for k in g if k not in p_] if g.get(k) != p_.get(k)]
+                ebad = (name, "width %d (pinned %d)" % (gen[name][0], pin[name][0]) if gen[name][0] != pin[name][0] else
+                        ("member %s = %s, the protocol's value (pinned) is %s" % diff[0] if diff else "member order changed"), "", "")
+                break
+        chk.evaluations += sum(len(v[1]) for v in pin.values())
+        chk.count("enum_members_compared", sum(len(v[1]) for v in pin.values()))
+    chk.oblige("monitor:enum-and-flag-members-equal-pinned(member by member)", ebad is None, repr(ebad) if ebad else "")
+    if ebad:
+        chk.violation("%s: %s" % (ebad[0], ebad[1]), {"enum": ebad[0], "difference": ebad[1]}, key="enum:" + ebad[0])
     chk.sample(vecs["vectors"][7])
     chk.exhaustive = True
     chk.assumptions = ["the pinned tables/vectors were generated once from revision %s by tools/mkpinned.py and are committed" % vecs["revision"]]
